@@ -20,8 +20,9 @@ for d in sorted((V / "seeded").iterdir()):
                 clauses.append(mm.group(1))
     caught = ", ".join(j.get("caught_by", [])) or "—"
     ran = ", ".join(f"{c}:{r['exit']}" for c, r in j.get("checks", {}).items())
-    rows.append(f"| {j['id']} | {j['property']} | {what} | {needs} | {caught} ({'; '.join(clauses[:3])}) | {ran} |")
-table = ("| id | property | seeded change | needs, to manifest | caught by (first clauses) | checks run: exit |\n|---|---|---|---|---|---|\n"
+    hist = j.get("history", "")
+    rows.append(f"| {j['id']} | {j['property']} | {what} | {needs} | {caught} ({'; '.join(clauses[:3])}) | {ran} | {hist} |")
+table = ("| id | property | seeded change | needs, to manifest | caught by (first clauses) | checks run: exit | history |\n|---|---|---|---|---|---|---|\n"
          + "\n".join(rows))
 p = V / "DESIGN.md"
 s = p.read_text()
